@@ -44,8 +44,24 @@ pub fn c04(ctx: &mut Ctx) {
         oracle: Oracle::Judge,
     };
     sweep::run(ctx, &mut real, &sw);
+    // dense interior: every pair of a contiguous integer range and of a quarter-step float grid (relations
+    // between operands such as a == 2b, equal non-zero operands, odd/even and sign combinations, fractional
+    // parts below/at/above one half), plus a few values that are neither tiny nor boundaries
+    let mut dense = Alpha::tiny();
+    dense.ints = (-20..=20).collect();
+    dense.ints.extend([100, -100, 255, 256, 1000, -1000, 12345, 46340, 46341, 65535, 65536, -65537, 1_000_000]);
+    dense.floats = (-12..=12).map(|k| k as f32 / 4.0).collect();
+    dense.floats.extend([0.1, 0.7, 1.6, -1.6, 2.75, 7.5, 1000.5, -1000.5, 0.001, 12345.678, 1e6]);
+    dense.floats.extend(crate::alpha::near_floats());
+    dense.floats.extend([1000.0, 1000.00006, 2.54, 7.25, 7.3]);
+    dense.bools = vec![true, false];
+    dense.names = crate::alpha::names();
+    dense.deep = false;
     let names = scalar_names(&real.names());
-    let lg = Sweep { names, alpha: Alpha::large(), reduced: Alpha::large(), cap_per_instr: 20_000, missing: false, only_missing: false, populated_too: false, oracle: Oracle::Judge };
+    let dn = Sweep { names, alpha: dense, reduced: Alpha::tiny(), cap_per_instr: 200_000, missing: false, only_missing: false, populated_too: false, oracle: Oracle::Judge };
+    sweep::run(ctx, &mut real, &dn);
+    let names = scalar_names(&real.names());
+    let lg = Sweep { names, alpha: Alpha::large(), reduced: Alpha::large_reduced(), cap_per_instr: 20_000, missing: false, only_missing: false, populated_too: false, oracle: Oracle::Judge };
     sweep::run(ctx, &mut real, &lg);
 }
 
@@ -110,7 +126,7 @@ pub fn c10(ctx: &mut Ctx) {
             };
             sweep::run(ctx, &mut real, &sw);
             let names = real.names();
-            let lg = Sweep { names, alpha: Alpha::large(), reduced: Alpha::large(), cap_per_instr: if ctx.tier_thorough { 20_000 } else { 3_000 }, missing: false, only_missing: false, populated_too: false, oracle: Oracle::Confine };
+            let lg = Sweep { names, alpha: Alpha::large(), reduced: Alpha::large_reduced(), cap_per_instr: if ctx.tier_thorough { 20_000 } else { 3_000 }, missing: false, only_missing: false, populated_too: false, oracle: Oracle::Confine };
             sweep::run(ctx, &mut real, &lg);
         }
         f => panic!("unknown family {}", f),
@@ -133,12 +149,24 @@ pub fn c01_step(ctx: &mut Ctx) {
     sweep::run(ctx, &mut real, &sw);
     // the large-instance alphabet (few values, each of them big)
     let names = real.names();
-    let lg = Sweep { names, alpha: Alpha::large(), reduced: Alpha::large(), cap_per_instr: if ctx.tier_thorough { 20_000 } else { 3_000 }, missing: false, only_missing: false, populated_too: false, oracle: Oracle::NoPanic };
+    let lg = Sweep { names, alpha: Alpha::large(), reduced: Alpha::large_reduced(), cap_per_instr: if ctx.tier_thorough { 20_000 } else { 3_000 }, missing: false, only_missing: false, populated_too: false, oracle: Oracle::NoPanic };
     sweep::run(ctx, &mut real, &lg);
 }
 
 // ---------------------------------------------------------------------------
 // C05: one generic position map for all nine stack types
+
+/// pairwise different code items; those at positions 4j and 4j+1 print alike (floats inside items print
+/// with three decimals), 4j+2 is an instruction and 4j+3 a name of the same spelling as far as possible
+fn twin_item(k: usize) -> Tree {
+    let base = 100.0 + (k / 4) as f32;
+    match k % 4 {
+        0 => Tree::F(base + 0.0001),
+        1 => Tree::F(base + 0.0004),
+        2 => Tree::L(vec![Tree::I(100 + k as i32), Tree::F(base + 0.5001)]),
+        _ => Tree::L(vec![Tree::I(100 + k as i32 - 1), Tree::F(base + 0.5003)]),
+    }
+}
 
 fn distinct_items(t: Comp, depth: usize) -> M {
     let mut m = M::default();
@@ -149,11 +177,12 @@ fn distinct_items(t: Comp, depth: usize) -> M {
             Comp::I => m.i.push(100 + k as i32),
             Comp::F => m.f.push(100.5 + k as f32),
             Comp::N => m.n.push(format!("n{}", k)),
-            Comp::C => m.c.push(if k % 2 == 0 { Tree::I(100 + k as i32) } else { Tree::L(vec![Tree::I(100 + k as i32)]) }),
-            Comp::E => m.e.push(if k % 2 == 0 { Tree::I(100 + k as i32) } else { Tree::L(vec![Tree::I(100 + k as i32)]) }),
+            Comp::C => m.c.push(twin_item(k)),
+            Comp::E => m.e.push(twin_item(k)),
             Comp::BV => m.bv.push((0..=k).map(|j| j % 2 == 0).collect()),
             Comp::IV => m.iv.push((0..=k).map(|j| j as i32).collect()),
-            Comp::FV => m.fv.push((0..=k).map(|j| j as f32).collect()),
+            // neighbours 2j, 2j+1 agree to three decimals (vectors print with {:.3})
+            Comp::FV => m.fv.push((0..=(k / 2)).map(|j| j as f32 + if k % 2 == 1 && j == 0 { 0.2504 } else if j == 0 { 0.2501 } else { 0.0 }).collect()),
             _ => unreachable!(),
         }
     }
